@@ -15,6 +15,7 @@ import (
 	_ "embed"
 	"encoding/base64"
 	"encoding/json"
+	"errors"
 	"fmt"
 	"io"
 	"math/big"
@@ -176,6 +177,8 @@ type CertSpec struct {
 	// CASig selects the CA key and signature format: "" (Ed25519) | rsa-sha1 (the legacy "ssh-rsa" format) |
 	// rsa-sha2-256 | rsa-sha2-512 | ecdsa
 	CASig string `json:"ca_sig,omitempty"`
+	// Host: a host certificate instead of a user certificate
+	Host bool `json:"host,omitempty"`
 }
 
 // fixedAlgoSigner signs with one signature algorithm of its key, whatever the caller would negotiate.
@@ -225,6 +228,46 @@ func SKPub(label string) ssh.PublicKey {
 	return k
 }
 
+func certType(host bool) uint32 {
+	if host {
+		return ssh.HostCert
+	}
+	return ssh.UserCert
+}
+
+// Opaque is an identity whose blob is a legal agent identity (it starts with an algorithm name) that the ssh
+// library cannot parse: an algorithm it does not know.
+type Opaque struct {
+	Format string
+	Blob   []byte
+}
+
+func (o *Opaque) Type() string    { return o.Format }
+func (o *Opaque) Marshal() []byte { return o.Blob }
+func (o *Opaque) Verify([]byte, *ssh.Signature) error {
+	return errors.New("keys: opaque identity cannot verify")
+}
+
+// OpaquePub returns a deterministic opaque identity for a label; certLike selects a certificate-style algorithm name.
+func OpaquePub(label string, certLike bool) *Opaque {
+	format := "ssh-verif-unknown"
+	if certLike {
+		format = "ssh-verifnew-cert-v01@openssh.com"
+	}
+	h := sha256.Sum256([]byte("verif-opaque:" + label))
+	blob := ssh.Marshal(struct {
+		Name string
+		Rest []byte `ssh:"rest"`
+	}{format, append(h[:], h[:]...)})
+	return &Opaque{Format: format, Blob: blob}
+}
+
+// KindOpaque / KindOpaqueCert name the opaque identities as key kinds of a catalog.
+const (
+	KindOpaque     = "opaque"
+	KindOpaqueCert = "opaque-cert"
+)
+
 // Cert mints a user certificate for the spec, signed by the Ed25519 CA named
 // CALabel. Ed25519 signatures are deterministic, so equal specs give equal blobs.
 func Cert(s CertSpec) *ssh.Certificate {
@@ -237,7 +280,7 @@ func Cert(s CertSpec) *ssh.Certificate {
 	c := &ssh.Certificate{
 		Key:             subject,
 		Serial:          s.Serial,
-		CertType:        ssh.UserCert,
+		CertType:        certType(s.Host),
 		KeyId:           s.KeyID,
 		ValidPrincipals: s.Principals,
 		ValidAfter:      s.ValidAfter,
